@@ -40,6 +40,8 @@ type Config struct {
 	// R1b is a second concurrency rule on r1 that selects the OTHER argument (the "decoy" every
 	// request carries at index 1): an entry can pass R1 and then be blocked by R1b.
 	R1b *RuleSpec `json:"r1b,omitempty"`
+	// R1bFirst puts R1b in front of R1 in the loaded list
+	R1bFirst bool `json:"r1b_first,omitempty"`
 }
 
 func (c Config) String() string { b, _ := json.Marshal(c); return string(b) }
@@ -51,6 +53,7 @@ type opDef struct {
 	slot  int
 	miss  bool
 	later bool // a rule-check slot AFTER the hotspot slot rejects this request
+	short bool // only the first argument is passed (no value at index 1)
 }
 
 func (o opDef) String() string {
@@ -61,6 +64,9 @@ func (o opDef) String() string {
 		if o.later {
 			return fmt.Sprintf("E(%s,%q,rejected-by-a-later-slot)", o.res, o.val)
 		}
+		if o.short {
+			return fmt.Sprintf("E(%s,%q,one-argument)", o.res, o.val)
+		}
 		return fmt.Sprintf("E(%s,%q)", o.res, o.val)
 	}
 	return fmt.Sprintf("X(%d)", o.slot)
@@ -69,9 +75,10 @@ func (o opDef) String() string {
 const maxLive = 4
 
 type live struct {
-	e   *base.SentinelEntry
-	res string
-	val string
+	e     *base.SentinelEntry
+	res   string
+	val   string
+	short bool // entered with one argument only: the second rule of r1 finds nothing to meter
 }
 
 type scen struct {
@@ -106,6 +113,9 @@ func (s *scen) Enabled(i int) bool {
 		if o.res == "r3" && s.cfg.R3 == nil {
 			return false
 		}
+		if o.short && s.cfg.R1b == nil {
+			return false
+		}
 		for _, l := range s.slots {
 			if l == nil {
 				return true
@@ -135,7 +145,11 @@ func (s *scen) Reset() {
 	env.ResetAll(env.DefaultGeometry, 1700000000000)
 	rules := []*hotspot.Rule{mkRule("r1", s.cfg.R1)}
 	if s.cfg.R1b != nil {
-		rules = append(rules, mkRule("r1", *s.cfg.R1b))
+		if s.cfg.R1bFirst {
+			rules = []*hotspot.Rule{mkRule("r1", *s.cfg.R1b), mkRule("r1", s.cfg.R1)}
+		} else {
+			rules = append(rules, mkRule("r1", *s.cfg.R1b))
+		}
 	}
 	if s.cfg.R3 != nil {
 		rules = append(rules, mkRule("r3", *s.cfg.R3))
@@ -159,6 +173,17 @@ func (s *scen) spec(res string) RuleSpec {
 		return *s.cfg.R3
 	}
 	return s.cfg.R1
+}
+
+// decoyLive: live r1 entries that carry a value at index 1
+func (s *scen) decoyLive() int64 {
+	var n int64
+	for _, l := range s.slots {
+		if l != nil && l.res == "r1" && l.val != "" && !l.short {
+			n++
+		}
+	}
+	return n
 }
 
 func (s *scen) liveCount(res, val string) int64 {
@@ -200,6 +225,9 @@ func (s *scen) Apply(i int) (string, string) {
 	}
 	spec := s.spec(o.res)
 	opts := append(entryOpts(spec, o.val), sentinel.WithSlotChain(s.chain))
+	if o.short {
+		opts = []sentinel.EntryOption{sentinel.WithArgs(o.val), sentinel.WithSlotChain(s.chain)}
+	}
 	if o.later {
 		opts = append(opts, sentinel.WithFlag(9))
 	}
@@ -212,9 +240,9 @@ func (s *scen) Apply(i int) (string, string) {
 			th = v
 		}
 		want = s.liveCount(o.res, o.val) < th
-		if want && o.res == "r1" && s.cfg.R1b != nil {
-			// second rule: meters the decoy argument, i.e. all live r1 entries that carry arguments
-			want = s.liveCount("r1", "A")+s.liveCount("r1", "B") < s.cfg.R1b.Threshold
+		if want && o.res == "r1" && s.cfg.R1b != nil && !o.short {
+			// second rule: meters the decoy argument, i.e. all live r1 entries that carry it
+			want = s.decoyLive() < s.cfg.R1b.Threshold
 		}
 	}
 	if o.later {
@@ -245,12 +273,21 @@ func (s *scen) Apply(i int) (string, string) {
 		}
 		for k := range s.slots {
 			if s.slots[k] == nil {
-				s.slots[k] = &live{e, o.res, o.val}
+				s.slots[k] = &live{e, o.res, o.val, o.short}
 				break
 			}
 		}
 	}
 	return obs, s.invariants(o)
+}
+
+func (s *scen) counters(res string) map[string]int64 {
+	idx := 0
+	if res == "r1" && s.cfg.R1b != nil && s.cfg.R1bFirst {
+		idx = 1
+	}
+	conc, _, _ := hotspot.VerifCounters(res, idx)
+	return toMap(conc)
 }
 
 func counters(res string) map[string]int64 {
@@ -271,7 +308,7 @@ func (s *scen) invariants(o opDef) string {
 		if res == "r3" && s.cfg.R3 == nil {
 			continue
 		}
-		m := counters(res)
+		m := s.counters(res)
 		for _, v := range []string{"A", "B"} {
 			if g, w := m[v], s.liveCount(res, v); g != w {
 				return fmt.Sprintf("after %v: per-value in-flight figure of %s/%s = %d, live entries = %d", o, res, v, g, w)
@@ -281,8 +318,12 @@ func (s *scen) invariants(o opDef) string {
 			return fmt.Sprintf("after %v: a counter exists for an argument the rule does not select", o)
 		}
 		if res == "r1" && s.cfg.R1b != nil {
-			c2, _, _ := hotspot.VerifCounters("r1", 1)
-			if g, w := toMap(c2)["decoy"], s.liveCount("r1", "A")+s.liveCount("r1", "B"); g != w {
+			i2 := 1
+			if s.cfg.R1bFirst {
+				i2 = 0
+			}
+			c2, _, _ := hotspot.VerifCounters("r1", i2)
+			if g, w := toMap(c2)["decoy"], s.decoyLive(); g != w {
 				return fmt.Sprintf("after %v: per-value in-flight figure of the second rule of r1 = %d, live entries = %d", o, g, w)
 			}
 		}
@@ -335,6 +376,7 @@ func mkOps() []opDef {
 		}
 	}
 	ops = append(ops, opDef{enter: true, res: "r1", val: "A", later: true})
+	ops = append(ops, opDef{enter: true, res: "r1", val: "A", short: true})
 	for k := 0; k < maxLive; k++ {
 		ops = append(ops, opDef{slot: k})
 	}
@@ -357,6 +399,8 @@ func configs() []Config {
 		{R1: sp(0, nil, false, 0)},
 		{R1: sp(2, nil, false, 0), R1b: &RuleSpec{Threshold: 2, Index: 1}},
 		{R1: sp(1, map[string]int64{"B": 2}, false, 0), R1b: &RuleSpec{Threshold: 1, Index: 1}, R3: &r3},
+		{R1: sp(2, nil, false, 0), R1b: &RuleSpec{Threshold: 2, Index: 1}, R1bFirst: true},
+		{R1: sp(2, map[string]int64{"A": 1}, false, 0), R1b: &RuleSpec{Threshold: 3, Index: 1}, R1bFirst: true},
 	}
 }
 
